@@ -1,14 +1,14 @@
 SPECIFICATION Spec
 CONSTANTS
   MaxPool = 3
-  Strategy = "hash"
-  Keys = {"a", "b", "-"}
+  Strategies = {"hash"}
+  Keys = {"a", "-"}
   Pools = {3}
   Presets = {0}
   Hi = 2
   Lo = 4
   VN = 1
-  H = 4
+  H = 3
   VTabs <- AllVTab
   KTabs <- AllKTab
   Defects = {"RingTie"}
